@@ -47,6 +47,7 @@ import (
 
 type c02Bus struct {
 	egress [][]byte
+	dst    []string
 	aaa    []*events.AAARequestEvent
 }
 
@@ -55,6 +56,7 @@ func (b *c02Bus) Publish(topic string, ev events.Event) {
 	case events.TopicEgress:
 		if e, ok := ev.Data.(*events.EgressEvent); ok {
 			b.egress = append(b.egress, append([]byte(nil), e.Packet.RawData...))
+			b.dst = append(b.dst, e.Packet.DstMAC)
 		}
 	case events.TopicAAARequest:
 		if e, ok := ev.Data.(*events.AAARequestEvent); ok {
@@ -139,6 +141,7 @@ type c02Sub2 struct {
 	grp  int
 	mac  net.HardwareAddr
 	inc  int    // incarnations started so far
+	told net.IP // last address the subscriber was told (a REQUEST names it in option 50)
 	real string // component session id of the current incarnation
 }
 
@@ -246,6 +249,9 @@ func (w *c02World) dhcpPkt(s *c02Sub2, mt layers.DHCPMsgType, ciaddr net.IP) *da
 		d.ClientIP = ciaddr
 	}
 	d.Options = append(d.Options, layers.NewDHCPOption(layers.DHCPOptMessageType, []byte{byte(mt)}))
+	if mt == layers.DHCPMsgTypeRequest && s.told.To4() != nil {
+		d.Options = append(d.Options, layers.NewDHCPOption(layers.DHCPOptRequestIP, []byte(s.told.To4())))
+	}
 	return &dataplane.ParsedPacket{Protocol: models.ProtocolDHCPv4, MAC: s.mac, OuterVLAN: uint16(100 + s.grp),
 		SwIfIndex: 10, DHCPv4: d}
 }
@@ -253,8 +259,15 @@ func (w *c02World) dhcpPkt(s *c02Sub2, mt layers.DHCPMsgType, ciaddr net.IP) *da
 // decode the DHCPv4 replies published since mark with gopacket: "offer:<yi>" / "ack:<yi>" / "nak"
 func (w *c02World) replies(mark int) []string {
 	var out []string
-	for _, raw := range w.bus.egress[mark:] {
+	for i, raw := range w.bus.egress[mark:] {
 		pkt := gopacket.NewPacket(raw, layers.LayerTypeIPv4, gopacket.Default)
+		if dl, _ := pkt.Layer(layers.LayerTypeDHCPv4).(*layers.DHCPv4); dl != nil {
+			for _, sub := range w.subs {
+				if sub.mac.String() == w.bus.dst[mark+i] {
+					sub.told = append(net.IP(nil), dl.YourClientIP...)
+				}
+			}
+		}
 		dl, _ := pkt.Layer(layers.LayerTypeDHCPv4).(*layers.DHCPv4)
 		if dl == nil {
 			out = append(out, "undecodable")
